@@ -449,6 +449,10 @@ func c03ConsumedFrontToBack(fn *FuncNode, sortCall *ast.CallExpr, slice types.Ob
 			// index must be the variable of an enclosing `for v := 0; ...; v++`
 			if iv := fn.objOf(pp.Index); iv != nil {
 				for k := 2; parent(k) != nil; k++ {
+					// … or the key of an enclosing `for v := range slice` over the same slice
+					if rs, ok := parent(k).(*ast.RangeStmt); ok && rs.Key != nil && fn.objOf(rs.Key) == iv && fn.objOf(rs.X) == slice {
+						return true
+					}
 					if fs, ok := parent(k).(*ast.ForStmt); ok {
 						if as, ok := fs.Init.(*ast.AssignStmt); ok && len(as.Lhs) == 1 && fn.objOf(as.Lhs[0]) == iv {
 							if v, isC := fn.constInt(as.Rhs[0]); isC && v == 0 {
@@ -537,6 +541,25 @@ func c03PlacementUpdate(p *Prog, fn *FuncNode, pops []*ast.CallExpr, want []stri
 			}
 		case *ast.AssignStmt:
 			if len(s.Lhs) != 1 || len(s.Rhs) != 1 {
+				return true
+			}
+			// plan[v.Nodename] += 1  /  plan[v.Nodename] = plan[v.Nodename] + 1
+			if ix, ok := unparen(s.Lhs[0]).(*ast.IndexExpr); ok && fieldOfV(ix.Index) == "Nodename" {
+				if _, isMap := fn.typeOf(ix.X).Underlying().(*types.Map); isMap && fn.dominates(popRef, fn.find(s)) {
+					one := func(e ast.Expr) bool { c, ok := fn.constInt(e); return ok && c == 1 }
+					same := func(e ast.Expr) bool {
+						jx, ok := unparen(e).(*ast.IndexExpr)
+						return ok && fn.objOf(jx.X) != nil && fn.objOf(jx.X) == fn.objOf(ix.X) && fieldOfV(jx.Index) == "Nodename"
+					}
+					switch s.Tok {
+					case token.ADD_ASSIGN:
+						planInc = planInc || one(s.Rhs[0])
+					case token.ASSIGN:
+						if be, ok := unparen(s.Rhs[0]).(*ast.BinaryExpr); ok && be.Op == token.ADD && ((same(be.X) && one(be.Y)) || (same(be.Y) && one(be.X))) {
+							planInc = true
+						}
+					}
+				}
 				return true
 			}
 			f := fieldOfV(s.Lhs[0])
